@@ -598,7 +598,14 @@ func (fc *funcContext) LeaveBlock() int {
 
 func (fc *funcContext) EndScope() {
 	for _, vr := range fc.Block.LocalVars.List() {
-		fc.Proto.DbgLocals[vr.Index].EndPc = fc.Code.LastPC()
+		// DbgLocals is in declaration order while vr.Index is a register number (registers are
+		// reused by later blocks): close the most recent entry of this name that is still open
+		for i := len(fc.Proto.DbgLocals) - 1; i >= 0; i-- {
+			if dl := fc.Proto.DbgLocals[i]; dl.Name == vr.Name && dl.EndPc == 0 {
+				dl.EndPc = fc.Code.LastPC()
+				break
+			}
+		}
 	}
 }
 
